@@ -7,6 +7,17 @@ buckets = collections.Counter()
 for f in sys.argv[1:]:
     e = json.load(open(f))
     buckets.update(e["coverage"]["failure_buckets"])
+# merge with what is already listed (earlier evidence files are not kept)
+_kf = json.load(open(os.path.join(V, "known_findings.json")))
+old_wild = collections.defaultdict(list)
+for e in _kf["findings"]:
+    if e.get("property") == "C17" and e.get("status") == "open":
+        for pat in e.get("buckets", []):
+            if pat.endswith("*"):
+                p_ = pat.split(":")
+                old_wild[(p_[0], p_[1])].append(pat)
+            elif pat not in buckets:
+                buckets[pat] = 1
 FLAGSHIP = ("x86.x86", "x64.x64", "riscv.rv32i", "riscv.rv64i", "arm.armv8", "arm.armv7", "mips.r3000", "mips.r3000LE", "sparc.v8")
 groups = collections.defaultdict(list)
 for b in buckets:
@@ -29,6 +40,9 @@ for (isa, stage), bl in sorted(groups.items()):
                 pats += sorted(l)
     ex = sorted(bl, key=lambda b: -buckets[b])[:3]
     what = "%s, stage %s: %d distinct crash/ill-formedness sites on the unchanged tree (exception type : innermost arch function : innermost amoco function), e.g. %s" % (isa, stage, len(bl), "; ".join(x.split(":", 2)[2] for x in ex))
+    wild = sorted(set(wild) | set(old_wild.get((isa, stage), [])))
+    import fnmatch
+    pats = [b for b in pats if not any(fnmatch.fnmatchcase(b, w) for w in wild)]
     entries.append(dict(id="C17-%s-%s" % (isa, stage), property="C17", status="open", buckets=wild + pats, what=what))
 kf = json.load(open(os.path.join(V, "known_findings.json")))
 kf["findings"] = [e for e in kf["findings"] if e.get("property") != "C17" or e.get("status") == "fixed"] + entries
